@@ -28,3 +28,33 @@ CONFIGS["C24"] = dict(
                  "configuration does not change in the middle of a history"],
     required_probes=["lockouts_started", "refused_while_locked"],
 )
+
+TOKENS_EXPORT = ("props/common/tokens_export.go", "internal/language/tokens/zz_verifsim_export.go")
+ARGON_KNOB = ["internal/util/crypto.go:argon2Memory=64", "internal/util/crypto.go:argon2Time=1"]
+
+CONFIGS["C21"] = dict(
+    prop="C21", engine="auth-hist", pkg="internal/router", harness="C21",
+    level="exploration",
+    level_text="seeded search over histories x schedules: issue / validate (through the router, tokens.Validate and "
+               "tokens.Unwrap; with every kind of single edit of the token string) / revoke / un-revoke / flush / purge of the "
+               "token, revocation and auth caches / time advances around token expiry, cache lifetimes and sweep ticks; the "
+               "operations of a phase run concurrently on 1-3 client tasks so that a validation can interleave with a "
+               "revocation at every lock acquisition; every validation whose expected outcome is definite is compared with "
+               "the reference model (valid iff issued here, unmodified, unexpired, id not revoked).",
+    technique="deterministic simulation: fake clock + seeded concurrent histories against a reference model",
+    rewrite=dict(dirs=ALL_INTERNAL, consts=ARGON_KNOB),
+    extra_files=[CACHES_EXPORT, TOKENS_EXPORT],
+    race="none",
+    quick=dict(runs=1500, per_proc=100, budget_s=240),
+    thorough=dict(runs=100000, per_proc=1000, budget_s=1500),
+    det_seeds=24,
+    rule="histories of 3-8 phases x 1-4 operations over 3 token slots and 2 users, lifetimes 30 s / 15 m / 2 h, cache size "
+         "knob 1/2/1000; non-trivial = >=2 validations; distinct = distinct (scheduler decisions, validation outcomes) hash",
+    real=["tokens.New/Validate/Unwrap/Blacklist/Delete/Flush", "resources store on a real SQLite file (modernc)", "caches incl. sweepers",
+          "router.ServeHTTP + Session.Authenticate (token branch)", "util.Encrypt/Decrypt (AES-GCM, Argon2id)"],
+    stubbed=["Argon2id cost parameters lowered to 64 KiB / 1 pass (pure cost knob, rule R6)", "user store: in-memory AuthService (existing seam)",
+             "time: synctest fake clock", "sync: scheduling shim"],
+    assumptions=["the server token key does not change during a history", "validations that overlap a change of the same token's state within one phase are not judged (either outcome legal)",
+                 "an attempt exactly at the expiry instant is not judged"],
+    required_probes=["validations"],
+)
